@@ -123,9 +123,9 @@ def classify(kind, canonical, exp, ok, out, base):
         return "ok", ""
     if canonical:
         return "failing", "canonical encoding of an in-type value was rejected"
-    if kind == "call":
-        return "corr", "model accepts this non-canonical calldata but the contract reverts"
-    return "ok", ""   # memory payload bounds (hi) are stricter than the model: allowed
+    if kind in ("call", "mem", "ret"):
+        return "corr", "model accepts this non-canonical input but the contract reverts"
+    return "ok", ""   # constructor arguments: one-directional check only
 
 
 def do_replay(ctx):
@@ -190,6 +190,10 @@ def run(ctx):
                      f"join (expect_payload t base {cl})")
         exprs.append(f"let t := {ct} in let base := enc t (VList [{A.coq_val(t, v)}]) in "
                      f"join (expect_len t [1;2;3;4] base {cl})")
+        exprs.append(f"let t := {ct} in let base := enc t (VList [{A.coq_val(t, v)}]) in "
+                     f"join (expect_mem t base {cl})")
+        exprs.append(f"let t := {ct} in let base := enc t (VList [{A.coq_val(t, v)}]) in "
+                     f"join (expect_ret t base {cl})")
     outs = A.coq_strings(exprs, "c05exp", imports=IMPORTS, shard=12, timeout=400)
     # ---- jobs
     cfgs = C.configs(ctx.tier)
@@ -204,9 +208,11 @@ def run(ctx):
         for v in vals:
             base = bases[k]
             cs = corr[k]
-            e_call = outs[3 * k].split(",")
-            e_pay = outs[3 * k + 1].split(",")
-            e_len = outs[3 * k + 2].split(",")
+            e_call = outs[5 * k].split(",")
+            e_pay = outs[5 * k + 1].split(",")
+            e_len = outs[5 * k + 2].split(",")
+            e_mem = outs[5 * k + 3].split(",")
+            e_ret = outs[5 * k + 4].split(",")
             has_len = t[0] in ("bytes", "string", "darr")
             assert len(e_call) == len(cs) == len(e_pay), (len(e_call), len(cs))
             ins, ms = [], []
@@ -219,10 +225,10 @@ def run(ctx):
                     ms.append(("len", cterm, e_len[j], data))
                 if j % 2 == 0 or j < 8:
                     ins.append(("mem", data))
-                    ms.append(("mem", cterm, e_pay[j], data))
+                    ms.append(("mem", cterm, e_mem[j], data))
                 if j % 5 == 0 or j < 4:
                     ins.append(("ret", data))
-                    ms.append(("ret", cterm, e_pay[j], data))
+                    ms.append(("ret", cterm, e_ret[j], data))
                 if j % 7 == 0 or j < 3:
                     ins.append(("ctor", data))
                     ms.append(("ctor", cterm, e_pay[j], data))
@@ -241,6 +247,9 @@ def run(ctx):
              "model_accepts_contract_rejects_payload": 0}
     nfail = 0
     for (t, vals, src, cfg, metas, bl), res in zip(jm, results):
+        if res.get("skipped"):
+            ctx.corr["skipped_too_large"] = ctx.corr.get("skipped_too_large", 0) + 1
+            continue
         if res["error"]:
             ctx.violation("correspondence-broken", f"echo harness could not run: {res['error'][:160]}",
                           {"type": A.eth_ty(t), "config": cfg.name, "error": res["error"], "source": src})
@@ -256,8 +265,11 @@ def run(ctx):
                         stats["accepted_noncanonical"] += 1
                 elif ok is False:
                     stats["rejected"] += 1
-                    if exp != "R" and kind != "call":
+                    if exp != "R" and kind == "ctor":
                         stats["model_accepts_contract_rejects_payload"] += 1
+                        ctx.corr.setdefault("ctor_reject_samples", [])
+                        if len(ctx.corr["ctor_reject_samples"]) < 12:
+                            ctx.corr["ctor_reject_samples"].append([A.eth_ty(t), cterm, cfg.name])
                 verdict, text = classify(kind, canonical, exp, ok, out, bl[vi])
                 if verdict == "ok":
                     continue
